@@ -25,7 +25,7 @@ var changeCacheGuardExempt = []GuardExempt{
 }
 
 func checkC08(c *Ctx, r *Report) {
-	r.Explain = "Decides structural necessary conditions of sequence buffering: (R1) every access to the change cache's buffering state happens under its lock (lockset analysis over all functions of package db, entry locksets = meet over call sites); (R2) the contiguous high-water mark is stored only by the three buffering helpers, only to one past a sequence carried by the entry being added, or to the oldest pending sequence immediately after recording exactly the jumped range as skipped; (R3) a late arrival is added to the channel caches before it is removed from the skipped set; (R4) entries are buffered or cached only after the duplicate checks; (R5) the low sequence stamped on every emitted entry is derived from the oldest skipped sequence minus one, and the per-channel feeds resume from SafeSequence. Not decided: exactly-once delivery over all arrival permutations, equality of the skipped set with the missing set, thresholds and timing."
+	r.Explain = "Decides structural necessary conditions of sequence buffering: (R1) every access to the change cache's buffering state happens under its lock (lockset analysis over all functions of package db, entry locksets = meet over call sites); (R2) the contiguous high-water mark is stored only by the three buffering helpers, only to one past a sequence carried by the entry being added, or to the oldest pending sequence immediately after recording exactly the jumped range as skipped; (R3) a late arrival is added to the channel caches before it is removed from the skipped set; (R4) entries are buffered or cached only after the duplicate checks; (R5) the low sequence stamped on every emitted entry is derived from the oldest skipped sequence minus one, and the per-channel feeds resume from SafeSequence.; (R6) entries leave the pending heap only through _popPendingLog (which truncates unused ranges at the next buffered document). Not decided: exactly-once delivery over all arrival permutations, equality of the skipped set with the missing set, thresholds and timing."
 	la := newLockAnalysis(c, []string{"changeCache.lock"}, "db")
 	la.EntryHeld = changeCacheEntryHeld
 	la.Solve()
@@ -37,6 +37,7 @@ func checkC08(c *Ctx, r *Report) {
 	c08R2(c, r)
 	c08R3R4(c, r)
 	c08R5(c, r)
+	c08R6(c, r)
 }
 
 func c08R2(c *Ctx, r *Report) {
@@ -344,6 +345,63 @@ func c08R3R4(c *Ctx, r *Report) {
 		okNeg := ReachFrom(neg[0].To(), 0, goesOn, nil) == nil
 		r.Check("C08-R4", construct, c.Pos(w.Pos()), okPos && okNeg, "skipped ⇒ processed as late arrival; not skipped ⇒ ignored as duplicate",
 			fmt.Sprintf("late-arrival/duplicate split is wrong: skipped-edge reaches cache=%v, not-skipped-edge avoids cache=%v", okPos, okNeg))
+	}
+}
+
+// C08-R6: entries leave the pending heap only through _popPendingLog, which truncates an unused-sequence range at the next pending
+// document; a bare pop of an overlapping range would let the contiguous high-water mark jump over that document, which is then
+// discarded as already cached — delivered zero times and never recorded as skipped.
+func c08R6(c *Ctx, r *Report) {
+	r.Rule("C08-R6", "E3 whomay", "changeCache.pendingLogs is popped only inside _popPendingLog; pushes happen only in processEntry and the unused-range handlers", 2)
+	pend := c.Field("db.changeCache", "pendingLogs")
+	if pend == nil {
+		r.Fail("C08-R6", "anchor db.changeCache.pendingLogs", "-", "field not found")
+		return
+	}
+	allowedPop := map[string]bool{"(*db.changeCache)._popPendingLog": true}
+	allowedPush := map[string]bool{"(*db.changeCache).processEntry": true, "(*db.changeCache).processUnusedRange": true, "(*db.changeCache)._pushRangeToPending": true, "(*db.changeCache).processUnusedSequenceRange": true, "(*db.changeCache).releaseUnusedSequenceRange": true}
+	// helpers extracted from a listed owner (called by nothing else) count as that owner
+	for _, set := range []map[string]bool{allowedPop, allowedPush} {
+		var names []string
+		for k := range set {
+			names = append(names, k)
+		}
+		for _, k := range names {
+			if f := c.Func(k); f != nil {
+				for _, h := range c.PrivateHelpers(f, 2) {
+					set[c.FuncName(h)] = true
+				}
+			}
+		}
+	}
+	n := 0
+	for _, fn := range c.ScopeFuncs() {
+		for _, call := range c.Calls(fn, false, nameIs("container/heap.Pop", "container/heap.Push", "container/heap.Remove")) {
+			a := call.Common().Args
+			if len(a) == 0 {
+				continue
+			}
+			mi, ok := a[0].(*ssa.MakeInterface)
+			if !ok {
+				continue
+			}
+			fa, ok := mi.X.(*ssa.FieldAddr)
+			if !ok || structField(fa.X.Type(), fa.Field) != pend {
+				continue
+			}
+			n++
+			top := c.FuncName(TopLevel(fn))
+			op := CalleeIdent(call)
+			okSite := (op == "Pop" && allowedPop[top]) || (op == "Push" && allowedPush[top])
+			why := "an entry is taken off the pending heap outside _popPendingLog, i.e. without truncating an unused range at the next pending document: the high-water mark can jump over a buffered document, which is then dropped as already cached"
+			if op == "Push" {
+				why = "entries are pushed onto the pending heap from an unlisted function (the duplicate bookkeeping in processEntry / the range handlers would be bypassed)"
+			}
+			r.Check("C08-R6", fmt.Sprintf("fn=%s pendingLogs-%s", top, op), c.Pos(call.Pos()), okSite, "listed owner of the pending heap", why)
+		}
+	}
+	if n < 2 {
+		r.Fail("C08-R6", "pending heap operations", "-", fmt.Sprintf("only %d heap operations on pendingLogs found", n))
 	}
 }
 
